@@ -143,5 +143,907 @@ theorem find_tag_none (x : Str) (hx : Clean x) (l : Spec.SLine) (h : LineOK l)
     rw [hr, this] at hs
     omega
 
+/-! ### the fifteen transition keywords -/
+
+def names15 : List Str := Spec.transTagNames
+
+theorem kwOK_of (kw : Str) (h : 60 ∉ kw ∧ 62 ∉ kw ∧ 61 ∉ kw ∧ NL ∉ kw ∧ kw ≠ []) : KwOK kw :=
+  ⟨h.1, h.2.1, h.2.2.1, h.2.2.2.1, h.2.2.2.2⟩
+
+theorem names15_ok : ∀ kw ∈ names15, KwOK kw := by
+  have : ∀ kw ∈ names15, (60 ∉ kw ∧ 62 ∉ kw ∧ 61 ∉ kw ∧ NL ∉ kw ∧ kw ≠ []) := by decide
+  exact fun kw h => kwOK_of kw (this kw h)
+
+theorem names15_clean : ∀ kw ∈ names15, Clean kw ∧ NoEq kw := by
+  intro kw h
+  have k := names15_ok kw h
+  exact ⟨fun c hc => ⟨fun e => k.lt (e ▸ hc), fun e => k.gt (e ▸ hc)⟩, fun c hc e => k.eq (e ▸ hc)⟩
+
+/-- no keyword is part of another one -/
+theorem names15_sub : ∀ a ∈ names15, ∀ b ∈ names15, contains a b = (a == b) := by decide
+
+/-- free of every transition keyword -/
+def KwFree (s : Str) : Prop := ∀ kw ∈ names15, contains kw s = false
+
+instance (s : Str) : Decidable (KwFree s) := by unfold KwFree; exact inferInstance
+
+/-- the keyword discipline of a segment: literal runs and alternative texts mention no transition keyword,
+    a tag name is a transition keyword or mentions none -/
+def segKw : Spec.Seg → Prop
+  | .lit t => KwFree t
+  | .tag n none => n ∈ names15 ∨ KwFree n
+  | .tag n (some a) => (n ∈ names15 ∨ KwFree n) ∧ KwFree a
+
+instance : (s : Spec.Seg) → Decidable (segKw s)
+  | .lit _ => by unfold segKw; exact inferInstance
+  | .tag _ none => by unfold segKw; exact inferInstance
+  | .tag _ (some _) => by unfold segKw; exact inferInstance
+
+def isNamed (kw : Str) : Spec.Seg → Bool
+  | .tag n _ => n == kw
+  | .lit _ => false
+
+theorem segHas_kw (kw : Str) (hk : kw ∈ names15) (s : Spec.Seg) (h : segKw s) : segHas kw s = isNamed kw s := by
+  have name : ∀ n, (n ∈ names15 ∨ KwFree n) → contains kw n = (n == kw) := by
+    intro n hn
+    cases hn with
+    | inl hm => rw [names15_sub kw hk n hm]; exact Bool.eq_iff_iff.mpr ⟨fun e => by simpa using (by simpa using e : kw = n).symm, fun e => by simpa using (by simpa using e : n = kw).symm⟩
+    | inr hf =>
+      rw [hf kw hk]
+      cases hb : (n == kw) with
+      | false => rfl
+      | true =>
+        have e : n = kw := by simpa using hb
+        subst e
+        have := hf n hk
+        rw [names15_sub n hk n hk] at this
+        simp at this
+  cases s with
+  | lit t => simp only [segHas, isNamed]; exact h kw hk
+  | tag n d =>
+    cases d with
+    | none => simp only [segHas, isNamed]; exact name n h
+    | some a =>
+      simp only [segHas, isNamed]
+      rw [name n h.1, h.2 kw hk, Bool.or_false]
+
+/-- the line mentions the keyword iff one of its tags is named so -/
+theorem contains_kw (kw : Str) (hk : kw ∈ names15) (l : Spec.SLine) (h : ∀ s ∈ merge l, segKw s) :
+    contains kw (Spec.renderLine l) = (tagsOf l).any (fun p => p.1 == kw) := by
+  rw [contains_renderLine' kw (names15_ok kw hk) l, ← tagsOf_merge]
+  generalize merge l = m at h
+  induction m with
+  | nil => rfl
+  | cons s m ih =>
+    have hs := segHas_kw kw hk s (h s (by simp))
+    have := ih (fun x hx => h x (by simp [hx]))
+    simp only [List.any_cons, hs, this]
+    cases s with
+    | lit t => simp [isNamed, tagsOf]
+    | tag n d => simp [isNamed, tagsOf]
+
+/-! ### the substitution fold of `pgtLine` -/
+
+/-- one step of the fold in `pgtLine`: strip the alternative if the key's keyword occurs, then replace -/
+def pgtStep (l : Line) (kv : Str × Str) : Line :=
+  pyReplace kv.1 kv.2 (if hasSpecificTag l kv.1 then removeDefault l else l)
+
+/-- what `pgtLine` does with the substituted line -/
+def pgtFinal (l : Line) : List Line :=
+  if pgtKinds.any (hasSpecificTag l) then
+    if hasDefault l then [List.replicate (l.length - (lstrip l).length) SP ++ (extractDefaultAndTag l).2 ++ NLs] else []
+  else if pgtAbsent.all (fun t => (find t l).isNone) then [l]
+  else []
+
+theorem pgtLine_eq (d : List (Str × Str)) (l : Line) : pgtLine d l = pgtFinal (d.foldl pgtStep l) := rfl
+
+/-- no tag of the line carries an alternative text -/
+def NoDflt (l : Spec.SLine) : Prop := ∀ p ∈ tagsOf l, p.2 = none
+
+instance (l : Spec.SLine) : Decidable (NoDflt l) := by unfold NoDflt; exact inferInstance
+
+theorem mem_tagsOf {l : Spec.SLine} {n : Str} {d : Option Str} : (n, d) ∈ tagsOf l ↔ Spec.Seg.tag n d ∈ l := by
+  unfold tagsOf
+  rw [List.mem_filterMap]
+  constructor
+  · rintro ⟨s, hs, he⟩
+    cases s with
+    | lit t => cases he
+    | tag n' d' => simp only [Option.some.injEq, Prod.mk.injEq] at he; obtain ⟨e1, e2⟩ := he; subst e1 e2; exact hs
+  · intro h; exact ⟨_, h, rfl⟩
+
+theorem dropLastDefault_nodflt (l : Spec.SLine) (h : NoDflt l) : dropLastDefault l = l := by
+  unfold dropLastDefault
+  change (match (tagsOf l).getLast? with
+    | some (n, some d) => l.map (fun s => if s = .tag n (some d) then .tag n none else s)
+    | _ => l) = l
+  cases hl : (tagsOf l).getLast? with
+  | none => rfl
+  | some p =>
+    obtain ⟨n, d⟩ := p
+    have := h (n, d) (List.mem_of_getLast? hl)
+    simp only at this
+    subst this
+    rfl
+
+theorem tagsOf_substOne_sub (x v : Str) (l : Spec.SLine) : ∀ p ∈ tagsOf (substOne x v l), p ∈ tagsOf l := by
+  intro p hp
+  obtain ⟨n, d⟩ := p
+  rw [mem_tagsOf] at hp ⊢
+  simp only [substOne, List.mem_map] at hp
+  obtain ⟨s, hs, he⟩ := hp
+  cases s with
+  | lit t => cases he
+  | tag n' d' =>
+    cases d' with
+    | some d' => simp only at he; rw [← he]; exact hs
+    | none =>
+      by_cases hn : n' = x
+      · simp [hn] at he
+      · simp only [hn, if_false] at he; rw [← he]; exact hs
+
+theorem substOne_names (x v : Str) (l : Spec.SLine) (hn : NamesOK l) : NamesOK (substOne x v l) := by
+  intro s hs
+  cases s with
+  | lit t => trivial
+  | tag n d =>
+    have := tagsOf_substOne_sub x v l (n, d) (mem_tagsOf.mpr hs)
+    exact hn _ (mem_tagsOf.mp this)
+
+theorem substOne_nodflt (x v : Str) (l : Spec.SLine) (hd : NoDflt l) : NoDflt (substOne x v l) :=
+  fun p hp => hd p (tagsOf_substOne_sub x v l p hp)
+
+theorem pgtStep_nodflt (k v : Str) (hk : Clean k) (hke : NoEq k) (l : Spec.SLine) (h : LineOK l) (hn : NamesOK l)
+    (hd : NoDflt l) : pgtStep (Spec.renderLine l) (tagPat k, v) = Spec.renderLine (substOne k v l) := by
+  unfold pgtStep
+  have : (if hasSpecificTag (Spec.renderLine l) (tagPat k, v).1 then removeDefault (Spec.renderLine l) else Spec.renderLine l)
+      = Spec.renderLine l := by
+    split
+    · rw [removeDefault_renderLine l h hn, dropLastDefault_nodflt l hd]
+    · rfl
+  rw [this]
+  exact pyReplace_renderLine k v hk hke l h
+
+/-- **lines without alternatives**: the fold is the plain chain of replacements -/
+theorem pgtFold_nodflt (d : List (Str × Str)) (hc : ChainOK d) (l : Spec.SLine) (h : LineOK l) (hn : NamesOK l)
+    (hd : NoDflt l) : (toPat d).foldl pgtStep (Spec.renderLine l) = Spec.renderLine (substChain d l) := by
+  induction d generalizing l with
+  | nil => rfl
+  | cons kv d ih =>
+    have hk := hc.key kv (by simp)
+    have hv := hc.val kv (by simp)
+    have hc' : ChainOK d := ⟨fun x hx => hc.key x (by simp [hx]), fun x hx => hc.val x (by simp [hx])⟩
+    simp only [toPat, List.map_cons, List.foldl_cons, substChain]
+    rw [pgtStep_nodflt kv.1 kv.2 hk.1 hk.2 l h hn hd]
+    exact ih hc' (substOne kv.1 kv.2 l) (substOne_ok kv.1 kv.2 hv l h) (substOne_names _ _ l hn) (substOne_nodflt _ _ l hd)
+
+/-! ### a single tag with an alternative text -/
+
+/-- every tag of the line replaced by the literal `v` -/
+def setTag (l : Spec.SLine) (v : Str) : Spec.SLine :=
+  l.map (fun s => match s with | .lit t => .lit t | .tag _ _ => .lit v)
+
+theorem tagsOf_setTag (l : Spec.SLine) (v : Str) : tagsOf (setTag l v) = [] := by
+  induction l with
+  | nil => rfl
+  | cons s l ih => cases s <;> simpa [setTag, tagsOf] using ih
+
+theorem setTag_ok (l : Spec.SLine) (v : Str) (h : LineOK l) (hv : Clean v) : LineOK (setTag l v) := by
+  intro s hs
+  simp only [setTag, List.mem_map] at hs
+  obtain ⟨s0, hs0, e⟩ := hs
+  cases s0 with
+  | lit t => subst e; exact h _ hs0
+  | tag n d => subst e; exact hv
+
+theorem substOne_tagless (x v : Str) (l : Spec.SLine) (h : tagsOf l = []) : substOne x v l = l := by
+  unfold substOne
+  conv => rhs; rw [← List.map_id l]
+  apply List.map_congr_left
+  intro s hs
+  cases s with
+  | lit t => rfl
+  | tag n d => have := mem_tagsOf.mpr hs; rw [h] at this; cases this
+
+theorem substChain_tagless (d : List (Str × Str)) (l : Spec.SLine) (h : tagsOf l = []) : substChain d l = l := by
+  induction d with
+  | nil => rfl
+  | cons kv d ih => simp only [substChain, List.foldl_cons] at ih ⊢; rw [substOne_tagless _ _ l h]; exact ih
+
+theorem nodflt_of_tagless (l : Spec.SLine) (h : tagsOf l = []) : NoDflt l := by
+  intro p hp; rw [h] at hp; cases hp
+
+theorem names_of_tagless (l : Spec.SLine) (h : tagsOf l = []) : NamesOK l := by
+  intro s hs
+  cases s with
+  | lit t => trivial
+  | tag n d => have := mem_tagsOf.mpr hs; rw [h] at this; cases this
+
+theorem replaceAux_pass (c : Nat) (ps rep s rest : Str) (h : ∀ x ∈ s, x ≠ c) :
+    replaceAux (c :: ps) rep 0 (s ++ rest) = s ++ replaceAux (c :: ps) rep 0 rest := by
+  induction s with
+  | nil => rfl
+  | cons a s ih =>
+    have ha : a ≠ c := h a (by simp)
+    have hp : isPrefixB (c :: ps) (a :: (s ++ rest)) = false := by
+      simp [isPrefixB]; intro e; exact absurd e.symm ha
+    simp only [List.cons_append, replaceAux, hp, Bool.false_eq_true, if_false]
+    rw [ih (fun x hx => h x (by simp [hx]))]
+
+theorem cleanTag_tagPat (k : Str) (hk : Clean k) : cleanTag (tagPat k) = k := by
+  unfold cleanTag pyReplace
+  have e1 : LLL.isEmpty = false := rfl
+  have e2 : GGG.isEmpty = false := rfl
+  simp only [e1, e2, Bool.false_eq_true, if_false]
+  have a : replaceAux LLL [] 0 (tagPat k) = k ++ GGG := by
+    have : tagPat k = 60 :: 60 :: 60 :: ((k ++ GGG) ++ []) := by simp [tagPat, LLL]
+    rw [this]
+    have hp : isPrefixB LLL (60 :: 60 :: 60 :: ((k ++ GGG) ++ [])) = true := by simp [LLL, isPrefixB]
+    rw [replaceAux]; simp only [hp, if_true]
+    have hl : LLL.length - 1 = 2 := rfl
+    rw [hl, replaceAux, replaceAux]
+    have hL : LLL = 60 :: [60, 60] := rfl
+    rw [hL, replaceAux_pass 60 [60, 60] [] (k ++ GGG) []]
+    · simp [replaceAux]
+    · intro x hx
+      rcases List.mem_append.mp hx with h | h
+      · exact (hk x h).1
+      · simp [GGG] at h; omega
+  rw [a]
+  have hG : GGG = 62 :: [62, 62] := rfl
+  rw [hG, replaceAux_pass 62 [62, 62] [] k _ (fun x hx => (hk x hx).2)]
+  simp [replaceAux, isPrefixB]
+
+theorem hasTag_renderLine (l : Spec.SLine) (h : LineOK l) : hasTag (Spec.renderLine l) = !(tagsOf l).isEmpty := by
+  unfold hasTag
+  rw [tagBodies_renderLine l h]
+  congr 1
+  induction l with
+  | nil => rfl
+  | cons s r ih =>
+    cases s with
+    | lit t =>
+      have := ih (fun x hx => h x (by simp [hx]))
+      simp only [List.filterMap_cons, segBody, tagsOf] at this ⊢
+      exact this
+    | tag n d => cases d <;> simp [segBody, tagsOf]
+
+/-- `hasSpecificTag(line, '<<<k>>>')` for a transition keyword: some tag of the line is named `k` -/
+theorem hasSpecificTag_kw (k : Str) (hk : k ∈ names15) (l : Spec.SLine) (h : LineOK l) (hkw : ∀ s ∈ merge l, segKw s) :
+    hasSpecificTag (Spec.renderLine l) (tagPat k) = (tagsOf l).any (fun p => p.1 == k) := by
+  unfold hasSpecificTag
+  rw [cleanTag_tagPat k (names15_clean k hk).1, contains_kw k hk l hkw, hasTag_renderLine l h]
+  cases ht : tagsOf l with
+  | nil => rfl
+  | cons p r => simp
+
+theorem substLine_single (d : List (Str × Str)) (l : Spec.SLine) (X alt : Str) (ht : tagsOf l = [(X, some alt)]) :
+    Spec.substLine (Spec.transSubst d) l = (match Spec.lookupS d X with | some v => setTag l v | none => l) := by
+  have all : ∀ s ∈ l, (∃ t, s = .lit t) ∨ s = .tag X (some alt) := by
+    intro s hs
+    cases s with
+    | lit t => exact Or.inl ⟨t, rfl⟩
+    | tag n dd =>
+      have := mem_tagsOf.mpr hs
+      rw [ht] at this
+      simp only [List.mem_singleton, Prod.mk.injEq] at this
+      right; rw [this.1, this.2]
+  cases hl : Spec.lookupS d X with
+  | some v =>
+    simp only [Spec.substLine, setTag]
+    apply List.map_congr_left
+    intro s hs
+    rcases all s hs with ⟨t, rfl⟩ | rfl
+    · rfl
+    · simp [Spec.transSubst, hl]
+  | none =>
+    simp only [Spec.substLine]
+    conv => rhs; rw [← List.map_id l]
+    apply List.map_congr_left
+    intro s hs
+    rcases all s hs with ⟨t, rfl⟩ | rfl
+    · rfl
+    · simp [Spec.transSubst, hl]
+
+/-- **a line whose only tag carries an alternative**: the tag takes the row's value, if the row has one -/
+theorem pgtFold_single (d : List (Str × Str)) (hc : ChainOK d) (hkeys : ∀ kv ∈ d, kv.1 ∈ names15)
+    (l : Spec.SLine) (h : LineOK l) (hn : NamesOK l) (X alt : Str) (ht : tagsOf l = [(X, some alt)])
+    (hkw : ∀ s ∈ merge l, segKw s) :
+    (toPat d).foldl pgtStep (Spec.renderLine l) = Spec.renderLine (Spec.substLine (Spec.transSubst d) l) := by
+  rw [substLine_single d l X alt ht]
+  induction d with
+  | nil => rfl
+  | cons kv d ih =>
+    have hk := hc.key kv (by simp)
+    have hv := hc.val kv (by simp)
+    have hc' : ChainOK d := ⟨fun x hx => hc.key x (by simp [hx]), fun x hx => hc.val x (by simp [hx])⟩
+    have hkeys' : ∀ x ∈ d, x.1 ∈ names15 := fun x hx => hkeys x (by simp [hx])
+    have hmem : Spec.Seg.tag X (some alt) ∈ l := mem_tagsOf.mp (by rw [ht]; simp)
+    have all : ∀ s ∈ l, (∃ t, s = .lit t) ∨ s = .tag X (some alt) := by
+      intro s hs
+      cases s with
+      | lit t => exact Or.inl ⟨t, rfl⟩
+      | tag n dd =>
+        have := mem_tagsOf.mpr hs
+        rw [ht] at this
+        simp only [List.mem_singleton, Prod.mk.injEq] at this
+        right; rw [this.1, this.2]
+    simp only [toPat, List.map_cons, List.foldl_cons]
+    have hspec := hasSpecificTag_kw kv.1 (hkeys kv (by simp)) l h hkw
+    rw [ht] at hspec
+    simp only [List.any_cons, List.any_nil, Bool.or_false] at hspec
+    by_cases hx : X = kv.1
+    · -- the tag is this key: the alternative goes, the value comes
+      have hb : (X == kv.1) = true := by simpa using hx
+      have step : pgtStep (Spec.renderLine l) (tagPat kv.1, kv.2) = Spec.renderLine (setTag l kv.2) := by
+        unfold pgtStep
+        simp only [hspec, hb, if_true]
+        rw [removeDefault_renderLine l h hn]
+        have hd : dropLastDefault l = l.map (fun s => if s = Spec.Seg.tag X (some alt) then Spec.Seg.tag X none else s) := by
+          unfold dropLastDefault
+          change (match (tagsOf l).getLast? with
+            | some (n, some d) => l.map (fun s => if s = Spec.Seg.tag n (some d) then Spec.Seg.tag n none else s)
+            | _ => l) = _
+          rw [ht]; rfl
+        have hok : LineOK (dropLastDefault l) := by
+          rw [hd]; intro s hs
+          simp only [List.mem_map] at hs
+          obtain ⟨s0, hs0, e⟩ := hs
+          by_cases he : s0 = .tag X (some alt)
+          · simp only [he, if_true] at e; subst e; exact (h _ hmem).1
+          · simp only [he, if_false] at e; subst e; exact h _ hs0
+        rw [pyReplace_renderLine kv.1 kv.2 hk.1 hk.2 _ hok, hd]
+        congr 1
+        simp only [substOne, setTag, List.map_map]
+        apply List.map_congr_left
+        intro s hs
+        rcases all s hs with ⟨t, rfl⟩ | rfl
+        · simp
+        · simp [hx]
+      rw [step]
+      have tl := tagsOf_setTag l kv.2
+      change List.foldl pgtStep (Spec.renderLine (setTag l kv.2)) (toPat d) = _
+      rw [pgtFold_nodflt d hc' (setTag l kv.2) (setTag_ok l kv.2 h hv) (names_of_tagless _ tl) (nodflt_of_tagless _ tl),
+        substChain_tagless d _ tl]
+      have : Spec.lookupS (kv :: d) X = some kv.2 := by
+        simp [Spec.lookupS, hx]
+      rw [this]
+    · have hb : (X == kv.1) = false := by simpa using hx
+      have step : pgtStep (Spec.renderLine l) (tagPat kv.1, kv.2) = Spec.renderLine l := by
+        unfold pgtStep
+        simp only [hspec, hb, Bool.false_eq_true, if_false]
+        rw [pyReplace_renderLine kv.1 kv.2 hk.1 hk.2 l h]
+        congr 1
+        unfold substOne
+        conv => rhs; rw [← List.map_id l]
+        apply List.map_congr_left
+        intro s hs
+        rcases all s hs with ⟨t, rfl⟩ | rfl <;> rfl
+      rw [step]
+      have : Spec.lookupS (kv :: d) X = Spec.lookupS d X := by
+        have : (kv.1 == X) = false := by simpa using fun e : kv.1 = X => hx e.symm
+        simp [Spec.lookupS, this]
+      rw [this]
+      exact ih hc' hkeys'
+
+/-! ### the decision after the substitutions -/
+
+theorem kinds_clean : ∀ t ∈ pgtKinds, cleanTag t ∈ names15 := by decide
+theorem kinds_cover : ∀ n ∈ names15, ∃ t ∈ pgtKinds, cleanTag t = n := by decide
+theorem absent_pats : ∀ t ∈ pgtAbsent, ∃ n ∈ names15, t = tagPat n := by decide
+
+/-- some tag of the line is named by a transition keyword -/
+def hasTrans (l : Spec.SLine) : Bool := (tagsOf l).any (fun p => names15.contains p.1)
+
+theorem pgtKinds_any (l : Spec.SLine) (h : LineOK l) (hkw : ∀ s ∈ merge l, segKw s) :
+    pgtKinds.any (hasSpecificTag (Spec.renderLine l)) = hasTrans l := by
+  apply Bool.eq_iff_iff.mpr
+  unfold hasTrans
+  simp only [List.any_eq_true]
+  constructor
+  · rintro ⟨t, ht, hs⟩
+    unfold hasSpecificTag at hs
+    simp only [Bool.and_eq_true] at hs
+    have hk := kinds_clean t ht
+    rw [contains_kw _ hk l hkw, List.any_eq_true] at hs
+    obtain ⟨p, hp, he⟩ := hs.2
+    refine ⟨p, hp, ?_⟩
+    have : p.1 = cleanTag t := by simpa using he
+    rw [this]; simpa using hk
+  · rintro ⟨p, hp, hc⟩
+    have hm : p.1 ∈ names15 := by simpa using hc
+    obtain ⟨t, ht, he⟩ := kinds_cover p.1 hm
+    refine ⟨t, ht, ?_⟩
+    unfold hasSpecificTag
+    rw [he, contains_kw _ hm l hkw, hasTag_renderLine l h]
+    simp only [Bool.and_eq_true, Bool.not_eq_true', List.any_eq_true]
+    refine ⟨?_, p, hp, by simp⟩
+    cases hl : tagsOf l with
+    | nil => rw [hl] at hp; cases hp
+    | cons a r => rfl
+
+theorem pgtAbsent_all (l : Spec.SLine) (h : LineOK l) (ht : hasTrans l = false) :
+    pgtAbsent.all (fun t => (find t (Spec.renderLine l)).isNone) = true := by
+  rw [List.all_eq_true]
+  intro t htm
+  obtain ⟨n, hn, rfl⟩ := absent_pats t htm
+  have hc := names15_clean n hn
+  rw [find_tag_none n hc.1 l h]; · rfl
+  intro s hs hb
+  cases s with
+  | lit t => cases hb
+  | tag n' d' =>
+    cases d' with
+    | none =>
+      simp only [segBody, Option.some.injEq] at hb
+      subst hb
+      have : hasTrans l = true := by
+        unfold hasTrans
+        rw [List.any_eq_true]
+        exact ⟨(n', none), mem_tagsOf.mpr hs, by simpa using hn⟩
+      rw [ht] at this; cases this
+    | some a =>
+      simp only [segBody, Option.some.injEq] at hb
+      have : (61 : Nat) ∈ n := by rw [← hb]; simp
+      exact hc.2 61 this rfl
+
+theorem contains_eq_false (n : Str) (h : NoEq n) : contains EQ n = false := by
+  induction n with
+  | nil => rfl
+  | cons c n ih =>
+    have hc : c ≠ 61 := h c (by simp)
+    have : isPrefixB EQ (c :: n) = false := by simp [EQ, isPrefixB]; exact fun e => hc e.symm
+    simp only [contains, this, Bool.false_or]
+    exact ih (fun x hx => h x (by simp [hx]))
+
+theorem contains_eq_true (n a : Str) : contains EQ (n ++ 61 :: a) = true := by
+  induction n with
+  | nil => simp [contains, EQ, isPrefixB]
+  | cons c n ih => simp only [List.cons_append, contains, ih, Bool.or_true]
+
+theorem hasDefault_renderLine (l : Spec.SLine) (h : LineOK l) (hn : NamesOK l) :
+    hasDefault (Spec.renderLine l) = (tagsOf l).any (fun p => p.2.isSome) := by
+  unfold hasDefault
+  rw [tagBodies_renderLine l h]
+  induction l with
+  | nil => rfl
+  | cons s r ih =>
+    have ih' := ih (fun x hx => h x (by simp [hx])) (fun x hx => hn x (by simp [hx]))
+    cases s with
+    | lit t => simp only [List.filterMap_cons, segBody, tagsOf] at ih' ⊢; exact ih'
+    | tag n d =>
+      have hnn : NoEq n := hn (.tag n d) (by simp)
+      cases d with
+      | none =>
+        simp only [List.filterMap_cons, segBody, tagsOf, List.any_cons, contains_eq_false n hnn, Bool.false_or,
+          Option.isSome_none] at ih' ⊢
+        exact ih'
+      | some a =>
+        have this' : contains EQ (n ++ 61 :: a) = true := contains_eq_true n a
+        simp [segBody, tagsOf, this']
+
+/-- the specification's decision on the substituted line (second half of `Spec.pgtLine`) -/
+def specFinal (l' : Spec.SLine) : List Spec.BItem :=
+  let absent := l'.filterMap (fun s => match s with
+    | .tag n dflt => if Spec.transTagNames.contains n then some dflt else none
+    | .lit _ => none)
+  if absent.isEmpty then [.line l']
+  else
+    match absent.filterMap id with
+    | alt :: _ =>
+      let t := Spec.lineText l'
+      [.line [.lit (List.replicate (t.length - (lstrip t).length) SP ++ alt)]]
+    | [] => []
+
+theorem spec_pgtLine_eq (d : List (Str × Str)) (l : Spec.SLine) :
+    Spec.pgtLine d (.line l) = specFinal (Spec.substLine (Spec.transSubst d) l) := rfl
+
+theorem absent_eq (l : Spec.SLine) :
+    l.filterMap (fun s => match s with
+      | .tag n dflt => if Spec.transTagNames.contains n then some dflt else none
+      | .lit _ => none) =
+    (tagsOf l).filterMap (fun p => if names15.contains p.1 then some p.2 else none) := by
+  induction l with
+  | nil => rfl
+  | cons s r ih =>
+    cases s with
+    | lit t => simp only [List.filterMap_cons, tagsOf] at ih ⊢; exact ih
+    | tag n d =>
+      have e : names15 = Spec.transTagNames := rfl
+      rw [e] at ih ⊢
+      simp only [List.filterMap_cons, tagsOf] at ih ⊢
+      cases hc : Spec.transTagNames.contains n
+      · simp only [Bool.false_eq_true, if_false]; exact ih
+      · simp only [if_true]; rw [ih]
+
+theorem single_split (l : Spec.SLine) (X : Str) (d : Option Str) (ht : tagsOf l = [(X, d)]) :
+    ∃ pre post, l = pre ++ Spec.Seg.tag X d :: post ∧ tagsOf pre = [] ∧ tagsOf post = [] := by
+  induction l with
+  | nil => cases ht
+  | cons s r ih =>
+    cases s with
+    | lit t =>
+      have : tagsOf r = [(X, d)] := by simpa [tagsOf] using ht
+      obtain ⟨pre, post, e, h1, h2⟩ := ih this
+      exact ⟨.lit t :: pre, post, by rw [e]; rfl, by simpa [tagsOf] using h1, h2⟩
+    | tag n dd =>
+      have : (n, dd) :: tagsOf r = [(X, d)] := by simpa [tagsOf] using ht
+      simp only [List.cons.injEq, Prod.mk.injEq] at this
+      obtain ⟨⟨e1, e2⟩, e3⟩ := this
+      subst e1 e2
+      exact ⟨[], r, rfl, rfl, e3⟩
+
+theorem clean_tagless (l : Spec.SLine) (h : LineOK l) (ht : tagsOf l = []) : Clean (renderSegs l) := by
+  induction l with
+  | nil => exact Clean.nil
+  | cons s r ih =>
+    cases s with
+    | tag n d => simp [tagsOf] at ht
+    | lit t =>
+      have hr : tagsOf r = [] := by simpa [tagsOf] using ht
+      have := ih (fun x hx => h x (by simp [hx])) hr
+      have ht' : Clean t := h (.lit t) (by simp)
+      simp only [renderSegs, List.map_cons, List.flatten_cons, Spec.Seg.render] at this ⊢
+      exact ht'.append this
+
+/-- **the decision**: keep the line, drop it, or emit the alternative text at its indentation -/
+theorem pgtFinal_spec (l : Spec.SLine) (h : LineOK l) (hn : NamesOK l) (hkw : ∀ s ∈ merge l, segKw s)
+    (hshape : NoDflt l ∨ ∃ X alt, tagsOf l = [(X, some alt)]) :
+    pgtFinal (Spec.renderLine l) = (specFinal l).map Spec.BItem.render := by
+  unfold pgtFinal specFinal
+  rw [pgtKinds_any l h hkw, absent_eq]
+  cases htr : hasTrans l with
+  | false =>
+    have hab : (tagsOf l).filterMap (fun p => if names15.contains p.1 then some p.2 else none) = [] := by
+      rw [List.filterMap_eq_nil_iff]
+      intro p hp
+      have : names15.contains p.1 = false := by
+        cases hc : names15.contains p.1 with
+        | false => rfl
+        | true =>
+          have : hasTrans l = true := by unfold hasTrans; rw [List.any_eq_true]; exact ⟨p, hp, hc⟩
+          rw [htr] at this; cases this
+      simp only [this, Bool.false_eq_true, if_false]
+    simp only [Bool.false_eq_true, if_false, pgtAbsent_all l h htr, if_true, hab, List.isEmpty_nil]
+    rfl
+  | true =>
+    simp only [if_true]
+    unfold hasTrans at htr
+    rw [List.any_eq_true] at htr
+    obtain ⟨p, hp, hc⟩ := htr
+    rw [hasDefault_renderLine l h hn]
+    rcases hshape with hd | ⟨X, alt, ht⟩
+    · -- no alternative anywhere: the line is dropped
+      have h1 : (tagsOf l).any (fun p => p.2.isSome) = false := by
+        rw [List.any_eq_false]; intro q hq; rw [hd q hq]; simp
+      generalize hA : (tagsOf l).filterMap (fun p => if names15.contains p.1 then some p.2 else none) = A
+      have hmemA : (none : Option Str) ∈ A := by
+        rw [← hA, List.mem_filterMap]; exact ⟨p, hp, by rw [if_pos hc, hd p hp]⟩
+      have hallA : ∀ o ∈ A, o = none := by
+        intro o ho
+        rw [← hA, List.mem_filterMap] at ho
+        obtain ⟨q, hq, he⟩ := ho
+        split at he
+        · injection he with he; rw [← he, hd q hq]
+        · cases he
+      have hnone : A.filterMap id = [] := by
+        rw [List.filterMap_eq_nil_iff]; intro o ho; rw [hallA o ho]; rfl
+      cases A with
+      | nil => cases hmemA
+      | cons a r =>
+        rw [hnone]
+        simp only [h1, List.isEmpty_cons, Bool.false_eq_true, if_false]
+        rfl
+    · -- the single tag is an absent transition tag with an alternative
+      rw [ht] at hp
+      simp only [List.mem_singleton] at hp
+      subst hp
+      simp only at hc
+      obtain ⟨pre, post, e, hpre, hpost⟩ := single_split l X (some alt) ht
+      have hpreok : LineOK pre := fun x hx => h x (by rw [e]; simp [hx])
+      have hpostok : LineOK post := fun x hx => h x (by rw [e]; simp [hx])
+      have hseg : SegOK (.tag X (some alt)) := h _ (by rw [e]; simp)
+      have hXn : NoEq X := hn (.tag X (some alt)) (by rw [e]; simp)
+      have htext : Spec.renderLine l = renderSegs pre ++ LLL ++ (X ++ [61] ++ alt) ++ GGG ++ (renderSegs post ++ [NL]) := by
+        rw [renderLine_eq, e]; simp [renderSegs, Spec.Seg.render]
+      have hx := extractDefaultAndTag_single (renderSegs pre) (X ++ [61] ++ alt) (renderSegs post ++ [NL]) EQ
+        (clean_tagless pre hpreok hpre) ((hseg.1.append clean_eq).append hseg.2)
+        ((clean_tagless post hpostok hpost).append clean_nl)
+      rw [← htext, splitOnce_eq_default X alt hXn] at hx
+      rw [ht]
+      simp only [List.any_cons, Option.isSome_some, Bool.true_or, if_true, List.filterMap_cons, hc,
+        List.filterMap_nil, List.isEmpty_cons, Bool.false_eq_true, if_false, id, List.map_cons, List.map_nil]
+      rw [hx]
+      simp [Spec.BItem.render, Spec.renderLine, Spec.Seg.render, Spec.lineText, NLs]
+
+/-! ### the line theorem and its lift to a block -/
+
+theorem substLine_trans_nodflt (d : List (Str × Str)) (l : Spec.SLine) (hd : NoDflt l) :
+    Spec.substLine (Spec.transSubst d) l = substChain d l := by
+  rw [substChain_eq]
+  simp only [Spec.substLine]
+  apply List.map_congr_left
+  intro s hs
+  cases s with
+  | lit t => rfl
+  | tag n dd =>
+    have := hd (n, dd) (mem_tagsOf.mpr hs)
+    simp only at this
+    subst this
+    rfl
+
+theorem substChain_keeps (d : List (Str × Str)) (l : Spec.SLine) (hn : NamesOK l) (hd : NoDflt l) :
+    NamesOK (substChain d l) ∧ NoDflt (substChain d l) := by
+  induction d generalizing l with
+  | nil => exact ⟨hn, hd⟩
+  | cons kv d ih =>
+    simp only [substChain, List.foldl_cons]
+    exact ih _ (substOne_names _ _ l hn) (substOne_nodflt _ _ l hd)
+
+theorem lookupS_mem (d : List (Str × Str)) (k v : Str) (h : Spec.lookupS d k = some v) : ∃ kv ∈ d, kv.2 = v := by
+  unfold Spec.lookupS at h
+  cases hf : d.find? (fun kv => kv.1 == k) with
+  | none => rw [hf] at h; cases h
+  | some kv =>
+    rw [hf] at h
+    simp only [Option.map_some, Option.some.injEq] at h
+    exact ⟨kv, List.mem_of_find?_eq_some hf, h⟩
+
+/-- the grammar of a line inside a per-guard-transition block, for one transition's dictionary -/
+structure PgtLineOK (d : List (Str × Str)) (l : Spec.SLine) : Prop where
+  ok : LineOK l
+  names : NamesOK l
+  /-- no tag has an alternative text, or the line's only tag has one -/
+  shape : NoDflt l ∨ ∃ X alt, tagsOf l = [(X, some alt)]
+  /-- literal runs, alternative texts and foreign tag names mention no transition keyword … -/
+  kw : ∀ s ∈ merge l, segKw s
+  /-- … also once the row's values are in place -/
+  kw' : ∀ s ∈ merge (Spec.substLine (Spec.transSubst d) l), segKw s
+
+/-- **one line of a per-guard-transition block, for one transition** -/
+theorem pgtLine_line (d : List (Str × Str)) (hc : ChainOK d) (hkeys : ∀ kv ∈ d, kv.1 ∈ names15)
+    (l : Spec.SLine) (h : PgtLineOK d l) :
+    pgtLine (toPat d) (Spec.renderLine l) = (Spec.pgtLine d (.line l)).map Spec.BItem.render := by
+  rw [pgtLine_eq, spec_pgtLine_eq]
+  rcases h.shape with hd | ⟨X, alt, ht⟩
+  · rw [pgtFold_nodflt d hc l h.ok h.names hd]
+    have e := substLine_trans_nodflt d l hd
+    have keep := substChain_keeps d l h.names hd
+    have ok' := (applySubst_renderLine d hc l h.ok).2
+    rw [e]
+    apply pgtFinal_spec _ ok' keep.1 (by rw [← e]; exact h.kw') (Or.inl keep.2)
+  · rw [pgtFold_single d hc hkeys l h.ok h.names X alt ht h.kw]
+    have hs := substLine_single d l X alt ht
+    have hk' := h.kw'
+    cases hl : Spec.lookupS d X with
+    | none =>
+      rw [hl] at hs
+      rw [hs] at hk' ⊢
+      exact pgtFinal_spec l h.ok h.names hk' (Or.inr ⟨X, alt, ht⟩)
+    | some v =>
+      rw [hl] at hs
+      rw [hs] at hk' ⊢
+      obtain ⟨kv, hkv, hv⟩ := lookupS_mem d X v hl
+      have hcv : Clean v := hv ▸ hc.val kv hkv
+      have tl := tagsOf_setTag l v
+      exact pgtFinal_spec _ (setTag_ok l v h.ok hcv) (names_of_tagless _ tl) hk' (Or.inl (nodflt_of_tagless _ tl))
+
+/-- a white-space-only (or any tagless, keyword-free) line passes unchanged -/
+theorem pgtLine_blank (d : List (Str × Str)) (hc : ChainOK d) (hkeys : ∀ kv ∈ d, kv.1 ∈ names15)
+    (t : Str) (ht : Clean t) (hk : KwFree t) :
+    pgtLine (toPat d) (t ++ [NL]) = [t ++ [NL]] := by
+  have hl : PgtLineOK d [.lit t] := by
+    refine ⟨?_, ?_, Or.inl ?_, ?_, ?_⟩
+    · intro s hs; simp only [List.mem_singleton] at hs; subst hs; exact ht
+    · intro s hs; simp only [List.mem_singleton] at hs; subst hs; trivial
+    · intro p hp; cases hp
+    · intro s hs; simp only [merge, List.mem_singleton] at hs; subst hs; exact hk
+    · intro s hs; simp only [Spec.substLine, List.map_cons, List.map_nil, merge, List.mem_singleton] at hs; subst hs; exact hk
+  have := pgtLine_line d hc hkeys [.lit t] hl
+  simpa [Spec.renderLine, Spec.Seg.render, Spec.pgtLine, Spec.substLine, Spec.BItem.render] using this
+
+def PgtItemOK (d : List (Str × Str)) : Spec.BItem → Prop
+  | .line l => PgtLineOK d l
+  | .blank t => Clean t ∧ KwFree t
+
+theorem pgtLine_item (d : List (Str × Str)) (hc : ChainOK d) (hkeys : ∀ kv ∈ d, kv.1 ∈ names15)
+    (i : Spec.BItem) (h : PgtItemOK d i) :
+    pgtLine (toPat d) i.render = (Spec.pgtLine d i).map Spec.BItem.render := by
+  cases i with
+  | line l => exact pgtLine_line d hc hkeys l h
+  | blank t => simpa [Spec.BItem.render, Spec.pgtLine] using pgtLine_blank d hc hkeys t h.1 h.2
+
+theorem transDict_eq (r : Table.Row) : transDict r = toPat (Spec.transTags r) := by
+  cases r with
+  | mk src ev next action guard => cases next <;> cases action <;> cases guard <;> rfl
+
+theorem transTags_keys (r : Table.Row) : ∀ kv ∈ Spec.transTags r, kv.1 ∈ names15 := by
+  have key : ∀ k ∈ (Spec.transTags r).map (·.1), k ∈ names15 := by
+    cases r with
+    | mk src ev next action guard =>
+      cases next <;> cases action <;> cases guard <;>
+        simp only [Spec.transTags, List.append_nil, List.nil_append, List.cons_append, List.map_cons, List.map_nil] <;>
+        decide
+  intro kv hkv
+  exact key kv.1 (List.mem_map_of_mem hkv)
+
+/-- the values of the row are free of angle brackets -/
+def RowOK (r : Table.Row) : Prop := ∀ kv ∈ Spec.transTags r, Clean kv.2
+
+theorem transTags_chain (r : Table.Row) (h : RowOK r) : ChainOK (Spec.transTags r) :=
+  ⟨fun kv hkv => names15_clean kv.1 (transTags_keys r kv hkv), h⟩
+
+/-- **a per-guard-transition block**: for every transition of the (state, event) pair, in table order,
+    every body line goes through the line rule -/
+theorem pgtExpand_eq (rows : List Table.Row) (body : List Spec.BItem) (hr : ∀ r ∈ rows, RowOK r)
+    (hb : ∀ r ∈ rows, ∀ i ∈ body, PgtItemOK (Spec.transTags r) i) :
+    pgtExpand rows (body.map Spec.BItem.render) [] =
+      some (((rows.map (fun r => (body.map (Spec.pgtLine (Spec.transTags r))).flatten)).flatten).map Spec.BItem.render) := by
+  unfold pgtExpand
+  simp only [List.isEmpty_nil, Bool.not_true, Bool.false_eq_true, if_false, Option.some.injEq]
+  rw [List.map_flatten, List.map_map]
+  congr 1
+  apply List.map_congr_left
+  intro r hrm
+  simp only [Function.comp, List.map_flatten, List.map_map]
+  congr 1
+  apply List.map_congr_left
+  intro i hi
+  simp only [Function.comp]
+  rw [transDict_eq]
+  exact pgtLine_item _ (transTags_chain r (hr r hrm)) (transTags_keys r) i (hb r hrm i hi)
+
+/-! ### what the rule says, case by case (facts about the specification) -/
+
+theorem mem_tagsOf_substLine (f : Str → Option Str → Option Str) (l : Spec.SLine) (n : Str) (dd : Option Str)
+    (h : (n, dd) ∈ tagsOf (Spec.substLine f l)) : (n, dd) ∈ tagsOf l ∧ f n dd = none := by
+  rw [mem_tagsOf] at h
+  simp only [Spec.substLine, List.mem_map] at h
+  obtain ⟨s, hs, he⟩ := h
+  cases s with
+  | lit t => cases he
+  | tag n' d' =>
+    simp only at he
+    cases hf : f n' d' with
+    | some v => rw [hf] at he; cases he
+    | none =>
+      rw [hf] at he
+      simp only [Spec.Seg.tag.injEq] at he
+      obtain ⟨e1, e2⟩ := he
+      subst e1 e2
+      exact ⟨mem_tagsOf.mpr hs, hf⟩
+
+theorem tagsOf_substLine_mem (f : Str → Option Str → Option Str) (l : Spec.SLine) (n : Str) (dd : Option Str)
+    (h : (n, dd) ∈ tagsOf l) (hf : f n dd = none) : (n, dd) ∈ tagsOf (Spec.substLine f l) := by
+  rw [mem_tagsOf] at h ⊢
+  simp only [Spec.substLine, List.mem_map]
+  exact ⟨_, h, by simp [hf]⟩
+
+/-- every transition tag of the line is answered by the row: the line is emitted with the values -/
+theorem spec_pgt_keeps (d : List (Str × Str)) (l : Spec.SLine)
+    (h : ∀ p ∈ tagsOf l, p.1 ∈ names15 → (Spec.lookupS d p.1).isSome = true) :
+    Spec.pgtLine d (.line l) = [.line (Spec.substLine (Spec.transSubst d) l)] := by
+  rw [spec_pgtLine_eq]
+  unfold specFinal
+  rw [absent_eq]
+  have : (tagsOf (Spec.substLine (Spec.transSubst d) l)).filterMap
+      (fun p => if names15.contains p.1 then some p.2 else none) = [] := by
+    rw [List.filterMap_eq_nil_iff]
+    intro p hp
+    obtain ⟨n, dd⟩ := p
+    obtain ⟨hm, hf⟩ := mem_tagsOf_substLine _ l n dd hp
+    cases hc : names15.contains n with
+    | false => simp only [Bool.false_eq_true, if_false]
+    | true =>
+      have := h (n, dd) hm (by simpa using hc)
+      simp only [Spec.transSubst] at hf
+      rw [hf] at this; cases this
+  rw [this]; rfl
+
+/-- a line without alternatives that mentions a transition tag the row does not answer is dropped -/
+theorem spec_pgt_drops (d : List (Str × Str)) (l : Spec.SLine) (hd : NoDflt l) (X : Str) (hX : X ∈ names15)
+    (hin : (X, none) ∈ tagsOf l) (hab : Spec.lookupS d X = none) : Spec.pgtLine d (.line l) = [] := by
+  rw [spec_pgtLine_eq]
+  unfold specFinal
+  rw [absent_eq]
+  generalize hA : (tagsOf (Spec.substLine (Spec.transSubst d) l)).filterMap
+      (fun p => if names15.contains p.1 then some p.2 else none) = A
+  have hc : names15.contains X = true := by simpa using hX
+  have hmemA : (none : Option Str) ∈ A := by
+    rw [← hA, List.mem_filterMap]
+    exact ⟨(X, none), tagsOf_substLine_mem _ l X none hin (by simp [Spec.transSubst, hab]), by simp only [hc, if_true]⟩
+  have hallA : ∀ o ∈ A, o = none := by
+    intro o ho
+    rw [← hA, List.mem_filterMap] at ho
+    obtain ⟨q, hq, he⟩ := ho
+    obtain ⟨n, dd⟩ := q
+    have := hd (n, dd) (mem_tagsOf_substLine _ l n dd hq).1
+    simp only at this
+    split at he
+    · injection he with he; rw [← he, this]
+    · cases he
+  have hnone : A.filterMap id = [] := by
+    rw [List.filterMap_eq_nil_iff]; intro o ho; rw [hallA o ho]; rfl
+  cases A with
+  | nil => cases hmemA
+  | cons a r => simp only [hnone, List.isEmpty_cons, Bool.false_eq_true, if_false]
+
+/-- the indentation of a line: as many spaces as its text has leading white space -/
+def indentOf (l : Spec.SLine) : Str :=
+  List.replicate ((Spec.lineText l).length - (lstrip (Spec.lineText l)).length) SP
+
+/-- the line's single tag is an unanswered transition tag with an alternative: the alternative text,
+    at the line's indentation, replaces the line -/
+theorem spec_pgt_alternative (d : List (Str × Str)) (l : Spec.SLine) (X alt : Str) (ht : tagsOf l = [(X, some alt)])
+    (hX : X ∈ names15) (hab : Spec.lookupS d X = none) :
+    Spec.pgtLine d (.line l) = [.line [.lit (indentOf l ++ alt)]] := by
+  rw [spec_pgtLine_eq, substLine_single d l X alt ht, hab]
+  unfold specFinal
+  rw [absent_eq, ht]
+  have hc : names15.contains X = true := by simpa using hX
+  simp only [List.filterMap_cons, hc, if_true, List.filterMap_nil, List.isEmpty_cons, Bool.false_eq_true, if_false, id]
+  rfl
+
+/-- … and when the row answers the tag, the alternative is not used -/
+theorem spec_pgt_alternative_unused (d : List (Str × Str)) (l : Spec.SLine) (X alt v : Str)
+    (ht : tagsOf l = [(X, some alt)]) (hv : Spec.lookupS d X = some v) :
+    Spec.pgtLine d (.line l) = [.line (setTag l v)] := by
+  rw [spec_pgtLine_eq, substLine_single d l X alt ht, hv]
+  unfold specFinal
+  rw [absent_eq, tagsOf_setTag]
+  rfl
+
+/-- what the row's dictionary answers -/
+theorem transTags_values (r : Table.Row) :
+    Spec.lookupS (Spec.transTags r) (T "ACTIONNAME") = r.action ∧
+    Spec.lookupS (Spec.transTags r) (T "GUARDNAME") = r.guard ∧
+    Spec.lookupS (Spec.transTags r) (T "NEXTSTATENAME") = r.next ∧
+    Spec.lookupS (Spec.transTags r) (T "STATENAMEIFNEXTSTATE") = r.next.map (fun _ => r.src) := by
+  cases r with
+  | mk src ev next action guard =>
+    cases next <;> cases action <;> cases guard <;>
+      simp +decide [Spec.transTags, Spec.lookupS]
+
+/-! ### executable hypotheses -/
+
+def singleB (l : Spec.SLine) : Bool :=
+  match tagsOf l with
+  | [(_, some _)] => true
+  | _ => false
+
+def pgtLineOKB (d : List (Str × Str)) (l : Spec.SLine) : Bool :=
+  decide (LineOK l) && decide (NamesOK l) && (decide (NoDflt l) || singleB l) &&
+  (merge l).all (fun s => decide (segKw s)) &&
+  (merge (Spec.substLine (Spec.transSubst d) l)).all (fun s => decide (segKw s))
+
+theorem pgtLineOKB_sound (d : List (Str × Str)) (l : Spec.SLine) (h : pgtLineOKB d l = true) : PgtLineOK d l := by
+  unfold pgtLineOKB at h
+  simp only [Bool.and_eq_true, Bool.or_eq_true, decide_eq_true_eq, List.all_eq_true] at h
+  obtain ⟨⟨⟨⟨h1, h2⟩, h3⟩, h4⟩, h5⟩ := h
+  refine ⟨h1, h2, ?_, h4, h5⟩
+  rcases h3 with h3 | h3
+  · exact Or.inl h3
+  · right
+    unfold singleB at h3
+    split at h3
+    · rename_i X alt ht; exact ⟨X, alt, ht⟩
+    · cases h3
+
+def pgtItemOKB (d : List (Str × Str)) : Spec.BItem → Bool
+  | .line l => pgtLineOKB d l
+  | .blank t => decide (Clean t) && decide (KwFree t)
+
+theorem pgtItemOKB_sound (d : List (Str × Str)) (i : Spec.BItem) (h : pgtItemOKB d i = true) : PgtItemOK d i := by
+  cases i with
+  | line l => exact pgtLineOKB_sound d l h
+  | blank t => simpa [pgtItemOKB, PgtItemOK] using h
+
+def rowOKB (r : Table.Row) : Bool := (Spec.transTags r).all (fun kv => decide (Clean kv.2))
+
+theorem rowOKB_sound (r : Table.Row) (h : rowOKB r = true) : RowOK r := by
+  unfold rowOKB at h
+  simp only [List.all_eq_true, decide_eq_true_eq] at h
+  exact h
+
 end Engine
 end KojenVerif
